@@ -176,25 +176,27 @@ def evaluate(acc, text, must_reject=None, label='soup'):
             raise Hang()
         return original()
     parser.next_token = counted
-    signal.signal(signal.SIGALRM, _alarm)
-    signal.alarm(10)
+    # CPU time of this process, not wall-clock time: a loaded host must not
+    # turn a slow case into a 'hang'
+    signal.signal(signal.SIGVTALRM, _alarm)
+    signal.setitimer(signal.ITIMER_VIRTUAL, 30)
     try:
         ok = parser.parse(text)
     except Hang:
-        signal.alarm(0)
+        signal.setitimer(signal.ITIMER_VIRTUAL, 0)
         acc.case(key=text, labels=[label, 'hang'])
         acc.fail('compile-does-not-finish',
                  'the compiler does not finish on {!r}'.format(text[:200]),
                  case)
         return
     except Exception as ex:
-        signal.alarm(0)
+        signal.setitimer(signal.ITIMER_VIRTUAL, 0)
         acc.case(key=text, labels=[label, 'crash'])
         acc.fail('compile-crash:' + bucket(ex),
                  'compiler raised {!r} on {!r}'.format(ex, text[:200]), case)
         return
     finally:
-        signal.alarm(0)
+        signal.setitimer(signal.ITIMER_VIRTUAL, 0)
     program_len = len(parser.get_program())
     key = token_types(text)
     nontrivial = program_len >= 1
@@ -229,7 +231,7 @@ def evaluate(acc, text, must_reject=None, label='soup'):
         return
     # accepted: execute on the budgeted machine
     del w.trace[:]
-    signal.alarm(20)
+    signal.setitimer(signal.ITIMER_VIRTUAL, 90)
     try:
         result = w.run(text, budget=5000)
     except Hang:
@@ -244,7 +246,7 @@ def evaluate(acc, text, must_reject=None, label='soup'):
                  'accepted {!r}'.format(ex, text[:200]), case)
         return
     finally:
-        signal.alarm(0)
+        signal.setitimer(signal.ITIMER_VIRTUAL, 0)
     labels = [label, 'accepted']
     internal = None
     if result.bad_pc is not None:
